@@ -60,6 +60,7 @@ def main():
         "violations_found": violations,
         "worker_crashes": sum(p.get("worker_crashes", 0) for p in profs),
         "worker_hangs": sum(p.get("worker_hangs", 0) for p in profs),
+        "foreign_worker_crashes": sum(p.get("foreign_worker_crashes", 0) for p in profs),
         "harness_errors": [h for p in profs for h in p.get("harness_errors", [])],
         "truncated_by_deadline": any(p.get("truncated_by_deadline", False) for p in profs),
         "per_profile": [
